@@ -192,6 +192,10 @@ class HoistSetupCallsIntoConditionals(RewritePattern):
         # i.e. they are not computed by the scf.if itself or by an operation after it
         if_op = op.in_state.owner
         if_block = if_op.parent_block()
+        # a setup nested in a later conditional or loop is not executed every time the
+        # scf.if is, so it can't be moved into the scf.if
+        if op.parent_block() is not if_block:
+            return
         if if_block is not None:
             for val in op.values:
                 if (
